@@ -265,7 +265,9 @@ class Parameter(_SupportsArray):
 
         if self.non_negative:
             value = _log_value(value)
-            minimum = _log_value(minimum)
+            # A non-positive lower bound does not restrict a non-negative parameter
+            # (the logarithm of a negative bound would be NaN).
+            minimum = _log_value(minimum) if minimum > 0 else -np.inf
             maximum = _log_value(maximum)
 
         return value, minimum, maximum
